@@ -450,6 +450,7 @@ def setup_pairs(h, rng, pair_assets, whitelist=None, mins=(0, 0), comm=None, pro
         for p in created:
             a0, a1 = h.pair_assets(p)
             base = scale if scale is not None else max(1000, h.ubal // rng.choice([4, 10, 1000, 10 ** 6]))
+            base = min(base, 2 ** 62)          # the first provision multiplies the two deposits in u128
             n0 = max(1, base // rng.choice([1, 1, 2, 7, 1000]))
             n1 = max(1, base // rng.choice([1, 1, 3, 5, 10 ** 6]))
             h.do(("provide", p, USER0, funds_for([(a0, n0), (a1, n1)]), a0, n0, a1, n1, None, None))
@@ -845,7 +846,7 @@ def router_histories(rng, tier):
             quote = h.query("rsim %d %s" % (amount, ops_line(ops))) if ops else None
             m = None
             if quote is not None and rng.random() < 0.8:
-                m = max(0, quote[0] + rng.choice([-1, 0, 0, 1, 1, -quote[0], 2 ** 127 - quote[0]]))
+                m = max(0, quote[0] + rng.choice([-1, -1, 0, 0, 0, 1, -quote[0], -(quote[0] // 2), 2 ** 127 - quote[0]]))
             elif rng.random() < 0.3:
                 m = rng.choice([0, 1, 2 ** 127])
             to = rng.choice([None, None, rng.choice(h.users()), u])
